@@ -411,6 +411,8 @@ def C07(run):
     _system_common(run, "C07:", "subsets")
     # several requests AT THE SAME TIME on one cache directory (the statement names "a concurrent request" among the causes)
     _system_trace(run, "C07:", "concurrent", n=(40 if run.tier == "quick" else 600))
+    # a request cancelled in the middle of its parallel phase, then the same request on what it left behind
+    _system_trace(run, "C07:", "cancel", n=(24 if run.tier == "quick" else 400))
     # job level, EXHAUSTIVE over the cache files of one segment: every stage x every subset of the segment's files.
     # Design level: Job.tla (transcription of GetExecutionPlan + the job's writes) establishes the job contract on all 2^12 x 3 states
     run.model_check("MCJob", "MCJob.cfg", workers=4)
